@@ -61,7 +61,7 @@ def run(ctx):
     # the braking curve is built by evaluating the resistance model backwards along the path: its front/rear index freshness, the
     # cached index search and the force formulas (C07) are necessary here too
     from . import C07
-    C07.run(RuleProxy(ctx, {k: 'C03-7.resistance' for k in C07.RULES if k != 'C07-3.report'}))
+    C07.run(RuleProxy(ctx, {k: 'C03-7.resistance' for k in C07.RULES if k not in ('C07-3.report', 'C07-10.braking')}))
     anchor(ctx)
     rebuild(ctx)
     controller(ctx)
@@ -90,6 +90,27 @@ def anchor(ctx):
               'first pushes: %s' % [show(c.argvals[1], an.names)[:160] for c in first], w)
     clears = [c for c in an.calls if re.sub(r'::<.*?>', '', c.callee).endswith('::clear') and c.argvals and c.argvals[0] == ('ref', P('points'), 'mut') and not c.pc]
     ctx.check(len(clears) == 1, R, fid + '|cleared', 'the old curve is discarded first', '%d clear() calls' % len(clears), w)
+    # the resistance that decelerates the train along the curve is evaluated for the state AT the braking point it continues
+    # from: when update_res is called inside the loop, the state's offset and speed are those of the last point of the curve
+    ur = [c for c in an.calls if c.in_loop and re.sub(r'::<.*?>', '', c.callee).endswith('::update_res')]
+    if len(ur) != 1 or not ur[0].pointees or len(ur[0].pointees) < 2 or ur[0].pointees[1] is None:
+        ctx.unproved(R, fid + '|resistance state', 'expected one update_res call in the curve loop with a visible state argument (found %d)' % len(ur), w)
+    else:
+        def upd_field(t, fld):
+            while t is not None and t[0] == 'upd':
+                if t[2] == (('f', fld),):
+                    return t[3]
+                t = t[1]
+            return None
+        st_ = ur[0].pointees[1]
+        vo, vs = upd_field(st_, 'offset'), upd_field(st_, 'speed')
+        def last_point_field(v, fld):
+            return v is not None and v[0] == 'proj' and v[2] == ('f', fld) and v[1][0] == 'elem' and 'points' in repr(v[1][1]) \
+                and v[1][2] == mk('sub', ('len', v[1][1]), ONE)
+        okr = last_point_field(vo, 'offset') and last_point_field(vs, 'speed_limit') and vo[1][1] == vs[1][1]
+        ctx.check(okr, R, fid + '|resistance state', 'resistance is evaluated at the offset and speed of the braking point the curve continues from',
+                  'update_res sees offset = %s, speed = %s' % (show(vo, an.names)[:120] if vo else 'a value from an earlier iteration',
+                                                               show(vs, an.names)[:120] if vs else 'a value from an earlier iteration'), ctx.where(b, ur[0].span))
     curve = []
     point = []
     for c in ps:
